@@ -393,9 +393,12 @@ fn check_prefix(spec: &RecordSpec, k: usize, out: &ReadOut) -> Result<(), Fail> 
 }
 
 fn first_fail(fails: Vec<Fail>) -> Result<(), Fail> {
-    // One verdict per case: the first failing cut whose class is not one of the classes already
-    // recorded as findings of the pinned tree (so that a recorded class never hides a new one in
-    // the same file), else the first failing cut.  The detail lists every class with its count.
+    // One verdict per case: the first failing cut whose class is not one of the classes that
+    // were recorded as findings of the pinned tree -- still known, or since repaired -- so that
+    // such a class never hides a new one in the same file; else the first failing cut.  This
+    // list only orders the report: whether a tag is tolerated is decided by bin/check from
+    // known_findings.json (a repaired class that recurs is a new failure).  The detail lists
+    // every class with its count.
     const RECORDED: [&str; 5] = [
         "bgzf-large-read-never-ends-without-eof-marker",
         "bcf-recordbuf-cut-inside-l-shared-clean-eof",
